@@ -100,8 +100,19 @@ def p_has_ctx(v):
     return split_val(v)[1] is not None
 
 
+def p_mod3(v):
+    """answers with a number, not a bool (truthy for d % 3 != 0)"""
+    d = split_val(v)[0]
+    return d % 3 if _num(d) else 0
+
+
+def p_datum(v):
+    """answers with the datum itself (truthy / falsy object)"""
+    return split_val(v)[0]
+
+
 PREDS = {"even": p_even, "pos": p_pos, "none": p_none, "all": p_all,
-         "has_ctx": p_has_ctx}
+         "has_ctx": p_has_ctx, "mod3": p_mod3, "datum": p_datum}
 
 
 class UserAcc(object):
@@ -340,10 +351,17 @@ def slice_args():
     )
 
 
+# (None and false data: an element must not mistake a value for "no value")
+odd_data = st.sampled_from([None, "", False, 0, [], "s"])
 flow_values = st.one_of(
-    st.integers(-5, 9),
+    st.integers(-5, 9), st.integers(-5, 9), st.integers(-5, 9),
     st.builds(lambda d, c: ["p", d, c], st.integers(-5, 9),
               st.dictionaries(st.sampled_from(["a", "b"]), st.integers(0, 3), max_size=2)),
+    st.builds(lambda d, c: ["p", d, c], st.integers(-5, 9),
+              st.dictionaries(st.sampled_from(["a", "b"]), st.integers(0, 3), max_size=2)),
+    odd_data,
+    st.builds(lambda d, c: ["p", d, c], odd_data,
+              st.dictionaries(st.sampled_from(["a", "b"]), st.sampled_from([0, None, 1]), max_size=2)),
 )
 
 
